@@ -23,35 +23,16 @@ func normErr(s string) string {
 	return s
 }
 
-func structuralCondition(g *Graph, c Config) string {
-	f := g.features(c)
-	var parts []string
-	add := func(b bool, s string) {
-		if b {
-			parts = append(parts, s)
-		}
+// classKey groups failures that are candidates for one root cause: failure class + normalised error text.
+func classKey(r cfgResult) string {
+	switch r.Class {
+	case "wrong-result", "no-convergence":
+		return r.Class
 	}
-	add(f.fanCross2, "fan-out-crosses-cp-boundary-twice")
-	add(f.fanMixed, "fan-out-both-inside-and-outside-cp")
-	add(f.fanInternal2, "fan-out-inside-cp")
-	add(f.extInFan, "external-input-fan-out")
-	add(f.nonConvex, "mutually-dependent-cps")
-	if len(parts) == 0 {
-		add(f.internalLink && f.crossLink, "internal-and-cross-cp-links")
-		if len(parts) == 0 {
-			add(f.internalLink, "collapsed-fragments-share-register")
-			add(f.crossLink, "link-crosses-cp-boundary")
-		}
-	}
-	if len(parts) == 0 {
-		parts = append(parts, "single-instance")
-	}
-	return strings.Join(parts, "+")
+	return r.Class + "|" + normErr(r.Err)
 }
 
-func classify(g *Graph, c Config, r cfgResult, siblings []*cfgResult, _ *Graph) (sig, what string) {
-	cond := structuralCondition(g, c)
-	// metamorphic information: how many sibling partitions agree with the reference
+func classify(g *Graph, c Config, r cfgResult, cond string, siblings []*cfgResult) (sig, what string) {
 	pass, total := 0, 0
 	for _, s := range siblings {
 		if s != nil {
@@ -81,7 +62,5 @@ func classify(g *Graph, c Config, r cfgResult, siblings []*cfgResult, _ *Graph) 
 	}
 	return
 }
-
-func nondetCondition(g *Graph, c Config) string { return structuralCondition(g, c) }
 
 func abortCondition(note string) string { return normErr(note) }
